@@ -12,7 +12,7 @@ C08_FORMULAS = ["KernelAgrees", "PrepareTargetOutcome", "RejectedCreateReportsEr
                 "LowerDirsNearestFirst", "UnmountOnlyAfterRemovedOrClosing", "UnmountBeforeRmdir", "ReclaimedDirIsGone", "AfterCleanupDirsAreLive",
                 "AfterSyncRemoveDirsAreLive", "MetaHasDirs", "AckedStayUntilRemoved", "LabelsStable", "RemoveOfLeafSucceeds"]
 C09_FORMULAS = ["RestartSucceedsOrPrescribed", "RemountedExactly", "RestoredWithStoredLabels", "NoRestoreKeepsMounts",
-                "RestartPreservesSnapshots", "MetaHasDirs", "AfterCleanupDirsAreLive", "OneCleanupRemovesHalfMade", "RemoveOfLeafSucceeds", "LabelsStable",
+                "RestartPreservesSnapshots", "StartedMountsServed", "MetaHasDirs", "AfterCleanupDirsAreLive", "OneCleanupRemovesHalfMade", "RemoveOfLeafSucceeds", "LabelsStable",
                 "AckedStayUntilRemoved"]
 
 NEGCTL = {
@@ -74,6 +74,78 @@ def interest(w):
     return sc
 
 
+def crash_class_walks(inits, edges):
+    """Deterministic part of the C09 selection: for EVERY crash point of the graph (the call in flight, its program
+    counter = the CrashPoint marker / backend event just passed, the directory under cleanup, and whether the backend
+    survives) one walk  init -> ... -> op -> Crash there -> Restart -> ... -> Started -> Cleanup -> Return."""
+    out = collections.defaultdict(list)
+    for e in edges:
+        out[canon(e["from"])].append(e)
+    # shortest path from the initial state to every node
+    start = canon(inits[0])
+    prev = {start: None}
+    dq = collections.deque([start])
+    while dq:
+        n = dq.popleft()
+        for e in out.get(n, ()):
+            t = canon(e["to"])
+            if t not in prev:
+                prev[t] = (n, e)
+                dq.append(t)
+
+    def path_to(n):
+        p = []
+        while prev[n] is not None:
+            n, e = prev[n]
+            p.append(e)
+        return list(reversed(p))
+
+    def to_cleanup_return(src):
+        # shortest continuation that ends with the Return of a Cleanup
+        pv = {src: None}
+        q = collections.deque([src])
+        while q:
+            n = q.popleft()
+            for e in out.get(n, ()):
+                t = canon(e["to"])
+                if e["last"].get("act") == "Return" and e["last"].get("op") == "Cleanup":
+                    p = [e]
+                    while pv[n] is not None:
+                        n, e2 = pv[n]
+                        p.append(e2)
+                    return list(reversed(p))
+                if t not in pv:
+                    pv[t] = (n, e)
+                    q.append(t)
+        return None
+
+    classes = {}
+    for e in edges:
+        if e["last"].get("act") != "Crash":
+            continue
+        f = canon(e["from"])
+        if f not in prev:
+            continue
+        o = e["from"]["op"]
+        key = (o["name"], o["pc"], o["tgt"] != "", o["p"] != "", o["cur"] >= 0, len(o["tasks"]), bool(e["last"].get("bs")))
+        classes.setdefault(key, []).append(e)
+    walks, missing = [], []
+    for key in sorted(classes, key=str):
+        best = None
+        for e in sorted(classes[key], key=lambda e: len(path_to(canon(e["from"]))))[:6]:
+            tail = to_cleanup_return(canon(e["to"]))
+            if tail is None:
+                continue
+            w = path_to(canon(e["from"])) + [e] + tail
+            if best is None or len(w) < len(best):
+                best = w
+        if best is None:
+            missing.append(key)
+        else:
+            walks.append([dict(x["last"], post=x["to"]) for x in best])
+    return walks, {"crash_classes": len(classes), "covered_classes": len(walks), "no_cleanup_budget": len(missing)}
+
+
 def gen_thunks(run, configs):
     def gen(c):
         label, ov, asyn, sim, maxlen, extra, maxw = c
@@ -97,10 +169,16 @@ def make_jobs(run, pid, configs, graphs):
             # the walks dropped differ from kept ones mainly in calls that are rejected right away
             keep = sorted(keep, key=interest, reverse=True)[:maxw]
             truncated = True
+        if pid == "C09" and not sim:
+            # always, in every run: one crash -> restart -> Cleanup behaviour per crash point
+            cw, cst = crash_class_walks(inits, edges)
+            keep = cw + keep
+            st = dict(st, **cst)
         st = dict(st, label=label, kept=len(keep), simulate=bool(sim))
         log("[walks] %s: %s" % (label, st))
         out = os.path.join(run.scratch, "replay_%s.ndjson" % label)
-        jobs.append({"label": label, "async": asyn, "names": ["c1", "c2", "c3", "k1", "k2", "k3"], "out": out,
+        jobs.append({"label": label, "async": asyn, "seeded": ov.get("InitCommitted") == "TRUE",
+                     "names": ["c1", "c2", "c3", "k1", "k2", "k3"], "out": out,
                      "walks": [strip(w) for w in keep], "exhaustive": (not sim) and st["covered"] == st["edges"] and not truncated})
         run.cov["stages"].append(dict(stage="edge-cover", **st))
     return jobs
@@ -190,7 +268,8 @@ def validate(run, pid, job, formulas):
         res = run.tlc_trace("Snapshotter2Trace", "Snapshotter2Trace.cfg", path, ov, timeout=1200)
         viol, mr = run.tlc_monitor("Snapshotter2Trace", "Snapshotter2Monitor.cfg", path, ov, timeout=1200)
     else:
-        ov = {"Async": "TRUE" if job["async"] else "FALSE", "Keys": '{"k1", "k2", "k3"}', "CNames": '{"c1", "c2", "c3"}'}
+        ov = {"Async": "TRUE" if job["async"] else "FALSE", "Keys": '{"k1", "k2", "k3"}', "CNames": '{"c1", "c2", "c3"}',
+              "InitCommitted": "TRUE" if job.get("seeded") else "FALSE"}
         res = run.tlc_trace("SnapshotterTrace", "SnapshotterTrace.cfg", path, ov, timeout=2400)
         viol, mr = run.tlc_monitor("SnapshotterMonitor", "SnapshotterMonitor.cfg", path, ov, timeout=2400)
     if viol:
@@ -368,13 +447,19 @@ def check(run, pid):
                        ("sim-sync", dict(S, **base, MaxOps="5", MaxId="4", AnyOrder="TRUE"), False, (10, 50), 60, 0, None)]
     else:
         if thorough:
+            SEED = {"InitCommitted": "TRUE", "MaxId": "3", "Keys": K1}
             configs = [("sync", S, False, None, 40, 300, None),
                        ("async", A, True, None, 40, 300, None),
+                       ("sync-seeded", dict(S, **SEED), False, None, 40, 100, None),
+                       ("async-seeded", dict(A, **SEED), True, None, 40, 100, None),
                        ("sim-sync", dict(S, MaxOps="5", MaxId="4", MaxRestarts="2", AnyOrder="TRUE"), False, (100, 60), 70, 0, None),
                        ("sim-async", dict(A, MaxOps="5", MaxId="4", MaxRestarts="2", AnyOrder="TRUE"), True, (100, 60), 70, 0, None)]
         else:
-            configs = [("sync", dict(S, Keys=K1), False, None, 40, 0, 900),
-                       ("async", dict(A, Keys=K1), True, None, 40, 0, 500),
+            SEED = {"InitCommitted": "TRUE", "MaxId": "2", "Keys": K1}
+            configs = [("sync", dict(S, Keys=K1), False, None, 40, 0, 600),
+                       ("async", dict(A, Keys=K1), True, None, 40, 0, 300),
+                       ("sync-seeded", dict(S, **SEED), False, None, 40, 0, 150),
+                       ("async-seeded", dict(A, **SEED), True, None, 40, 0, 50),
                        ("sim-sync", dict(S, MaxOps="4", MaxId="3", MaxRestarts="2", AnyOrder="TRUE"), False, (8, 50), 60, 0, None)]
     gts = gen_thunks(run, configs)
     tts = two_thunks(run) if pid == "C08" else []
